@@ -396,3 +396,172 @@ func checkErrorReplyText(c *Check) {
 	}
 	c.Expect(rule, 1)
 }
+
+func init() {
+	postHooks["C06"] = append(postHooks["C06"], checkNoSliceReinterpretation)
+}
+
+// checkNoSliceReinterpretation: no library function turns a pointer to one slice into a pointer to a slice of
+// another type through unsafe.Pointer: the result shares the argument's backing array, so a list derived from the
+// caller's configuration (descriptor lists) is modified in place when it is extended or shuffled.
+func checkNoSliceReinterpretation(c *Check) {
+	p := c.P
+	rule := "10/no-slice-reinterpretation"
+	// functions that return their slice parameter reinterpreted
+	reint := map[*ssa.Function]string{}
+	n := 0
+	for _, fn := range p.AllFuncs() {
+		if !inModule(fn) || fn.Pkg == nil || strings.HasSuffix(fn.Pkg.Pkg.Path(), "_test") || strings.Contains(fn.Pkg.Pkg.Path(), "/cmd/") {
+			continue
+		}
+		for _, b := range fn.Blocks {
+			for _, in := range b.Instrs {
+				cv, ok := in.(*ssa.Convert)
+				if !ok {
+					continue
+				}
+				n++
+				if cv.X.Type().String() != "unsafe.Pointer" {
+					continue
+				}
+				if pt, ok := cv.Type().Underlying().(*types.Pointer); ok {
+					if _, isSl := pt.Elem().Underlying().(*types.Slice); isSl {
+						reint[fn] = p.Pos(cv.Pos())
+					}
+				}
+			}
+		}
+	}
+	// mutated(v): v is extended, copied into or stored into, here or (one level) in a callee it is passed to
+	var mutated func(v ssa.Value, depth int, seen map[ssa.Value]bool) string
+	mutated = func(v ssa.Value, depth int, seen map[ssa.Value]bool) string {
+		if v == nil || seen[v] || v.Referrers() == nil {
+			return ""
+		}
+		seen[v] = true
+		for _, r := range *v.Referrers() {
+			switch x := r.(type) {
+			case *ssa.Phi:
+				if m := mutated(x, depth, seen); m != "" {
+					return m
+				}
+			case *ssa.Slice:
+				if m := mutated(x, depth, seen); m != "" {
+					return m
+				}
+			case *ssa.IndexAddr:
+				if x.Referrers() != nil {
+					for _, u := range *x.Referrers() {
+						if st, ok := u.(*ssa.Store); ok && st.Addr == ssa.Value(x) {
+							return p.Pos(st.Pos())
+						}
+					}
+				}
+			case *ssa.Call:
+				if bi, ok := x.Call.Value.(*ssa.Builtin); ok {
+					if (bi.Name() == "append" || bi.Name() == "copy") && len(x.Call.Args) > 0 && x.Call.Args[0] == v {
+						return p.Pos(x.Pos())
+					}
+					continue
+				}
+				if _, callee := calleeOf(x); callee != nil && inModule(callee) && depth > 0 {
+					for i, a := range x.Call.Args {
+						if a == v && i < len(callee.Params) {
+							if m := mutated(callee.Params[i], depth-1, seen); m != "" {
+								return m
+							}
+						}
+					}
+				}
+			}
+		}
+		return ""
+	}
+	bad := ""
+	for _, fn := range p.AllFuncs() {
+		if !inModule(fn) || len(reint) == 0 {
+			continue
+		}
+		for _, ci := range callInstrs(fn) {
+			_, callee := calleeOf(ci)
+			if at, ok := reint[callee]; ok {
+				if v, isV := ci.(ssa.Value); isV {
+					if m := mutated(v, 2, map[ssa.Value]bool{}); m != "" {
+						bad = shortName(callee) + " (" + at + "), result modified at " + m
+					}
+				}
+			}
+		}
+	}
+	c.Cond(bad == "", rule, "library:unsafe-slice-header", "-", fmt.Sprintf("no reinterpreted slice header is modified through its alias (%d conversions inspected, %d reinterpreting functions)", n, len(reint)),
+		"a slice is reinterpreted as a slice of another type by "+bad+": the result aliases its argument, so extending or reordering it rewrites the caller's list")
+}
+
+func init() {
+	postHooks["C01"] = append(postHooks["C01"], checkBuildLeavesInputsAlone)
+}
+
+// checkBuildLeavesInputsAlone: building a filter does not write into the lists it was given: it neither appends to
+// a list of the policy (append writes into the spare capacity of the caller's array, which may be the next list:
+// `table[:k]`, `table[k:]`) nor sorts or stores into one.
+func checkBuildLeavesInputsAlone(c *Check) {
+	p := c.P
+	rule := "10/inputs-not-modified"
+	fn := p.Func("pkg/seccomp/libseccomp", "Builder.Build")
+	if fn == nil || len(fn.Params) == 0 {
+		c.Undecided(rule, "libseccomp.Builder.Build", "-", "function not found")
+		return
+	}
+	recv := fn.Params[0]
+	isInput := func(v ssa.Value) bool {
+		v = stripConv(v)
+		if u, ok := v.(*ssa.UnOp); ok && u.Op == token.MUL {
+			if fa, ok := u.X.(*ssa.FieldAddr); ok && stripConv(fa.X) == ssa.Value(recv) {
+				_, isSl := u.Type().Underlying().(*types.Slice)
+				return isSl
+			}
+		}
+		return false
+	}
+	n, bad := 0, ""
+	var scan func(f *ssa.Function, isIn func(v ssa.Value) bool, depth int)
+	scan = func(f *ssa.Function, isIn func(v ssa.Value) bool, depth int) {
+		for _, b := range f.Blocks {
+			for _, in := range b.Instrs {
+				switch x := in.(type) {
+				case *ssa.Call:
+					n++
+					if bi, ok := x.Call.Value.(*ssa.Builtin); ok {
+						if bi.Name() == "append" && len(x.Call.Args) > 0 && isIn(x.Call.Args[0]) {
+							bad = "append to a list of the policy at " + p.Pos(x.Pos())
+						}
+						continue
+					}
+					nm, callee := calleeOf(x)
+					if strings.HasPrefix(nm, "sort.") || strings.HasPrefix(nm, "slices.Sort") || nm == "slices.Reverse" {
+						for _, a := range x.Call.Args {
+							if isIn(a) {
+								bad = nm + " on a list of the policy at " + p.Pos(x.Pos())
+							}
+						}
+					}
+					if callee != nil && inModule(callee) && depth > 0 && len(callee.Blocks) > 0 {
+						for k, a := range x.Call.Args {
+							if isIn(a) && k < len(callee.Params) {
+								par := callee.Params[k]
+								scan(callee, func(v ssa.Value) bool { return stripConv(v) == ssa.Value(par) }, depth-1)
+							}
+						}
+					}
+				case *ssa.Store:
+					if ia, ok := x.Addr.(*ssa.IndexAddr); ok && isIn(ia.X) {
+						bad = "store into a list of the policy at " + p.Pos(x.Pos())
+					}
+				}
+			}
+		}
+	}
+	scan(fn, isInput, 2)
+	c.Cond(bad == "", rule, "libseccomp.Builder.Build:lists", p.Pos(fn.Pos()), fmt.Sprintf("the allow and trace lists are only read (%d calls inspected)", n),
+		"Build modifies its input: "+bad+" (the caller's array, possibly shared with the other list, is overwritten: names move between allow and trace)")
+}
